@@ -765,8 +765,8 @@ def correspondence(ctx) -> CorrResult:
     res = CorrResult()
     items = []          # (where, case, coq model term, impl obs)
     dist = {"period_ops": {}, "errors": {}, "span_actions": {}, "span_kinds": {}, "blocks": {}, "frequencies": {}}
-    n_p = ctx.scale(1500, 100000)
-    n_h = ctx.scale(400, 30000)
+    n_p = ctx.scale(1500, 60000)
+    n_h = ctx.scale(400, 20000)
     n_e = ctx.scale(100, 3000)
     nontrivial = set()
     for _ in range(n_p):
@@ -900,7 +900,7 @@ def falsify(ctx, hints):
     import irispie as ir
     rng = ctx.rng
     ck = Checker()
-    n = ctx.scale(250, 6000)
+    n = ctx.scale(250, 3000)
     SEGM = {1: 12, 2: 6, 4: 3, 12: 1}
     for it in range(n):
         f = rng.choice(FREQS)
@@ -963,7 +963,7 @@ def falsify(ctx, hints):
                            "e = p.shift('eopy'); assert e.to_python_date() == dt.date(a.year - 1, 12, 31) and e + 1 == s\n"
                            "t = p.shift('tty'); assert (t is None and p == s) or (p > s and t == p - 1)")
     # 6. spans
-    for it in range(ctx.scale(250, 6000)):
+    for it in range(ctx.scale(250, 3000)):
         f = rng.choice(FREQS)
         s = rand_spec(rng, freq=f, lo=1800, hi=2200, sloppy=0)
         c = rng.choice([1, 1, -1, 2, 3, -2, -3, 5, -7])
